@@ -980,3 +980,61 @@ theorem runBody_spec (c : Cfg) (hco : CloseOk c) (s : St) (hp : s.hasDoneTeardow
         exact ⟨q, rfl, rest⟩
 
 end WS.Lemmas.App
+
+namespace WS.Lemmas.App
+open WS WS.Model.App
+
+/-- what a run that returned looks like (from `runBody_spec`) -/
+theorem returned_spec (c : Cfg) (hco : CloseOk c) (s0 : St) (b : Bool)
+    (h : (runForeverO c s0).2 = .returned b) :
+    Qst ((runBody c (prologue s0)).1) ∧
+    (runForever c s0).trace = (runBody c (prologue s0)).1.trace ++ [((runBody c (prologue s0)).1.now, .returned b)] ∧
+    b = (runBody c (prologue s0)).1.hasErrored ∧
+    ∃ δ1 a, cbs (runBody c (prologue s0)).1 = cbs s0 ++ δ1 ++ onCloseEv c a ∧ closesIn δ1 = 0 ∧
+      (ErrOk c → (runBody c (prologue s0)).1.hasErrored = errsIn δ1) := by
+  unfold runForever
+  unfold runForeverO at h ⊢
+  split at h
+  · simp at h
+  · split at h
+    · simp at h
+    · rename_i h1 h2
+      simp only [h1, h2, ↓reduceIte] at h ⊢
+      have sp := runBody_spec c hco (prologue s0) rfl (fun _ => by simp [prologue])
+      rcases hx : runBody c (prologue s0) with ⟨s1, r1⟩
+      rw [hx] at sp h
+      cases r1 with
+      | halt => simp at h
+      | exc e => simp at h
+      | ok u =>
+        cases u
+        simp only [Outcome.returned.injEq] at h
+        rcases sp with sp | ⟨q, _, δ1, a, hc, hcl, hl⟩
+        · simp [R.isHalt] at sp
+        · exact ⟨q, by simp [St.emit, h], h.symm, δ1, a, hc, hcl, hl⟩
+
+
+theorem returned_clean (c : Cfg) (hco : CloseOk c) (s0 : St) (b : Bool) (h : (runForeverO c s0).2 = .returned b) :
+    (runForever c s0).sock = none ∧ (runForever c s0).ping = none ∧ (runForever c s0).keepRunning = false ∧
+    (runForever c s0).lastPing = 0 ∧ (runForever c s0).lastPong = 0 := by
+  obtain ⟨q, _, _, _⟩ := returned_spec c hco s0 b h
+  have hs : runForever c s0 = ((runBody c (prologue s0)).1).emit (.returned (runBody c (prologue s0)).1.hasErrored) := by
+    unfold runForever
+    unfold runForeverO at h ⊢
+    split at h
+    · simp at h
+    · split at h
+      · simp at h
+      · rename_i h1 h2
+        simp only [h1, h2, ↓reduceIte] at h ⊢
+        rcases hx : runBody c (prologue s0) with ⟨s1, r1⟩
+        rw [hx] at h
+        cases r1 with
+        | halt => simp at h
+        | exc e => simp at h
+        | ok u => rfl
+  rw [hs]
+  exact ⟨q.sk, q.pg, q.kr, q.lp, q.lq⟩
+
+
+end WS.Lemmas.App
